@@ -145,7 +145,7 @@ def replay_metrics(inp):
     s = ppem / upem
     E = F * s
     y_ideal = round(asc * s - 0.5 * (m.line_height - h))
-    nudged = fmt == "cbdt" and y_ideal != m.y_offset
+    nudged = fmt == "cbdt" and not (-128 <= y_ideal <= 127)  # "had to be nudged": only an ideal outside int8 earns the second pixel
     tol = (2 if nudged else 1) + abs(E - h) / 2 + 1e-9
     bad = {}
     if ppem != round(upem * h / F):
@@ -237,7 +237,9 @@ def job_metrics(jc):
         ppem_c = round(Fraction(upem * h, F))
         lh_c = round(Fraction(F * ppem_c, upem))
         y_id = core.sym_round(core.SymNum(core.as_term(cfg.ascender) * R(Fraction(ppem_c, upem)) - R(Fraction(lh_c - h, 2))))
-        nudged = (core.as_term(top) != y_id.t) if fmt == "cbdt" else z3.BoolVal(False)
+        # the second pixel is granted only where the ideal offset does not fit int8 ("had to be nudged"), not wherever the
+        # stored offset happens to differ from the ideal (round 5: a double rounding of the scaled ascender hid behind that)
+        nudged = z3.Or(y_id.t > 127, y_id.t < -128) if fmt == "cbdt" else z3.BoolVal(False)
         props = spec_props(upem, F, h, mode, cfg, w, x_off, top, bottom, adv_px, ppem, nudged, A)
         props["stored width/height are the PNG's"] = z3.And(core.as_term(dims[0]) == core.as_term(w), core.as_term(dims[1]) == h)
         if fmt == "cbdt":
@@ -482,7 +484,7 @@ def main(tier):
         bounds={"(upem, em height)": "(1024,1200),(1000,1000),(2048,2400),(1024,1024)", "bitmap height = bitmap_resolution": "quick: 16,64,106,127,128,136,255 (+256,300 for rejection); thorough: every 8..255",
                 "ascender": "symbolic 0..em height (descender = ascender - em height)", "PNG width": "symbolic 1..255 (square: = height)", "configured width": "symbolic 0..4096"},
         outside=["PNG bytes / Pillow decoding", "fontTools strike compilation", "bitmap height != bitmap_resolution", "symbolic upem/em height (nonlinear)"],
-        assumptions=["PNG height equals config.bitmap_resolution (what the resvg step produces)", "edge tolerance = 1px (2 nudged) + |h - em height in px|/2, the mismatch inherent to ppem rounding"],
+        assumptions=["PNG height equals config.bitmap_resolution (what the resvg step produces)", "edge tolerance = 1px (2 only where the ideal offset does not fit int8) + |h - em height in px|/2, the mismatch inherent to ppem rounding"],
         shims=[s.describe() for s in bt_shims()],
         stubs=["PNG -> object with symbolic .size", "TTFont -> dict with getGlyphName"],
         budget_s=900 if tier == "quick" else 3400,
